@@ -32,6 +32,14 @@ Theorem C04_refines : forall isfast dok h g k eps s,
 Proof. exact stream_in_history. Qed.
 Print Assumptions C04_refines.
 
+(* the same with interleaving as an inductive relation: any number of streams with distinct keys, merged in any order *)
+Theorem C04_interleave : forall isfast dok (ss : list (key * list (list Z))) h g k eps s,
+  Interleave ss h -> NoDup (map fst ss) -> In (k, stream_frames eps) ss ->
+  isfast (fst (fst k)) = Some true -> Forall ep_ok eps -> chain_from s eps -> settled s (lookup k g) ->
+  proj k (snd (dec_run isfast dok g h)) = concat (stream_spec (dok k) eps).
+Proof. exact interleaved_streams. Qed.
+Print Assumptions C04_interleave.
+
 (* safety: whatever is handed to the PGN decoder during episode j of stream k is exactly payload(M_j) — no byte of
    another stream, another message, or the filler *)
 Theorem C04_safety : forall isfast dok h g k eps s,
@@ -100,6 +108,14 @@ Theorem C04_prologue : forall dok fs st,
   exists st', run dok st fs = (st', repeat Nothing (length fs)) /\ (st' = None \/ st' = Some new_rec).
 Proof. exact prologue_ignored. Qed.
 Print Assumptions C04_prologue.
+(* a stream that begins with stray non-first frames (its very first frame was lost), then episodes *)
+Theorem C04_stream_prologue : forall dok pro eps st,
+  (st = None \/ st = Some new_rec) ->
+  Forall (fun f => match f with [] => False | b0 :: _ => Z.land b0 31 <> 0 end) pro ->
+  Forall ep_ok eps -> chain_from (-1) eps ->
+  snd (run dok st (pro ++ stream_frames eps)) = repeat Nothing (length pro) ++ concat (stream_spec dok eps).
+Proof. exact stream_with_prologue. Qed.
+Print Assumptions C04_stream_prologue.
 Theorem C04_malformed : forall dok st can st', fp_step dok st can = (st', Raise) ->
   st' = Some (match st with Some r => r | None => new_rec end).
 Proof. exact raise_harmless. Qed.
